@@ -1,11 +1,11 @@
 package main
 
 import (
-	"runtime"
 	"encoding/json"
 	"fmt"
 	"hash/fnv"
 	"os"
+	"runtime"
 	"sort"
 	"strings"
 	"time"
@@ -200,6 +200,12 @@ func runOnce(sc *Scenario, prefix []int, prefixLabels []string, trace bool) (res
 	w := &World{sc: sc, blocked: map[[2]int]bool{}, keepTr: trace, vals: map[string]int{}, tvals: map[string]time.Duration{}, randExtra: map[int]int64{}}
 	vrand.Int63Fn = func() int64 {
 		if n := w.nodeOfCur(); n != nil {
+			if w.sc.Devs&DevRand != 0 && !w.noDevs && n.booted {
+				// the jitter of this timeout is an environment answer: the node's configured extra, or close to the maximum
+				if w.rec.choose([]string{fmt.Sprintf("n%d jitter default", n.id), fmt.Sprintf("n%d jitter max", n.id)}, []int{0, 1}) == 1 {
+					return int64(99 * time.Millisecond)
+				}
+			}
 			return w.randExtra[n.id]
 		}
 		return 0
@@ -350,15 +356,15 @@ func (s *Stats) merge(o *Stats) {
 }
 
 type Explorer struct {
-	sc        *Scenario
-	prop      string // property this check decides ("" = all)
-	bound     int
-	deadline  time.Time
-	stats     *Stats
-	shard, of int
+	sc          *Scenario
+	prop        string // property this check decides ("" = all)
+	bound       int
+	deadline    time.Time
+	stats       *Stats
+	shard, of   int
 	replayEvery int
-	maxViol   int
-	known     *KnownFindings
+	maxViol     int
+	known       *KnownFindings
 }
 
 func (e *Explorer) record(res *ExecResult, level int) {
